@@ -19,7 +19,7 @@ CONFIG = {'assumptions': [
     'section names compared as bytes (ASCII names)',
     '.eh_frame of a file reached through a debug link is not compared with the stripped file (objcopy --only-keep-debug '
     'turns it into NOBITS by construction)']}
-LEVEL = {'text': 'Machine-checked, 24 theorems closed under the global context, universally quantified over the zlib oracle, '
+LEVEL = {'text': 'Machine-checked, 25 theorems closed under the global context, universally quantified over the zlib oracle, '
                  'the loader and the reader of linked files. Specification level: the view handed to DWARFInfo (configuration, 19 '
                  'section slots with content / size / address / relocation section, supplementary view) of ANY abstract file is '
                  'unchanged by gABI compression of any set of plainly stored sections (any reserved word, alignment, offset, following '
@@ -28,7 +28,7 @@ LEVEL = {'text': 'Machine-checked, 24 theorems closed under the global context, 
                  'necessary by an Example], by dropping the contents of every section the reader never asks for '
                  '[C11_view_invariant_keep_debug], and in general depends only on names, relocation roles and the payloads of the '
                  'observed names [C11_view_depends_on_payloads]; through a .gnu_debuglink with the right CRC it IS the linked file\'s '
-                 'view, with a wrong CRC there is none, unfollowed links are inert [C11_view_through_debuglink, '
+                 'view, with a wrong CRC there is none, unfollowed links are inert [C11_view_through_debuglink, C11_only_keep_debug_workflow, '
                  'C11_debuglink_crc_mismatch_no_view, C11_debuglink_inert]; .gnu_debugaltlink and .debug_sup give the same supplementary '
                  'view = the supplementary file\'s own view, None without loader/follow_links [C11_view_altlink, C11_view_debugsup]. '
                  'Model level: the transliteration of get_dwarf_info returns a DWARFInfo whose view is the specification\'s debug_view '
